@@ -135,3 +135,36 @@ def run(ctx):
         else:
             ctx.inconclusive += 1
     ctx.bump("negative_probes", len(items))
+    # the same question asked in unevaluated contexts (traits, decltype detection): "never accepted" must also be the ANSWER, not only an error on use
+    TRAITS = r"""
+#include <type_traits>
+#include <utility>
+template <class A, class B, class = void> struct auv_eq : std::false_type {};
+template <class A, class B> struct auv_eq<A, B, au::stdx::void_t<decltype(std::declval<A>() == std::declval<B>())>> : std::true_type {};
+template <class A, class B, class = void> struct auv_lt : std::false_type {};
+template <class A, class B> struct auv_lt<A, B, au::stdx::void_t<decltype(std::declval<A>() < std::declval<B>())>> : std::true_type {};
+template <class A, class B, class = void> struct auv_sub : std::false_type {};
+template <class A, class B> struct auv_sub<A, B, au::stdx::void_t<decltype(std::declval<A>() - std::declval<B>())>> : std::true_type {};
+"""
+    titems = []
+    for ui, U in enumerate(us):
+        for rep in ["int", "double", "std::uint8_t", "std::int64_t", "float"]:
+            b = "using P = QuantityPoint<%s, %s>; using Q = Quantity<%s, %s>;\n" % (U, rep, U, rep)
+            b += ('static_assert(!std::is_constructible<P, Zero>::value, "is_constructible<QuantityPoint, Zero>");\n'
+                  'static_assert(!std::is_convertible<Zero, P>::value, "is_convertible<Zero, QuantityPoint>");\n'
+                  'static_assert(!std::is_assignable<P &, Zero>::value, "is_assignable<QuantityPoint&, Zero>");\n'
+                  'static_assert(!auv_eq<P, Zero>::value && !auv_eq<Zero, P>::value, "point == ZERO is well-formed");\n'
+                  'static_assert(!auv_lt<P, Zero>::value && !auv_lt<Zero, P>::value, "point < ZERO is well-formed");\n'
+                  'static_assert(std::is_constructible<Q, Zero>::value && std::is_convertible<Zero, Q>::value && std::is_assignable<Q &, Zero>::value, "Quantity from ZERO (twin)");\n'
+                  'static_assert(auv_eq<Q, Zero>::value && auv_eq<Zero, Q>::value && auv_lt<Q, Zero>::value && auv_lt<Zero, Q>::value && auv_sub<Q, Zero>::value, "Quantity op ZERO (twin)");\n')
+            titems.append((NEG_PRELUDE + TRAITS, b, core.CONFIGS[(ctx.seed + len(titems)) % 6]))
+    for it, v in zip(titems, progs.judge_positive(ctx, titems, group=8, tag="c19traits")):
+        ctx.count(7)
+        if v.ok:
+            ctx.nontrivial(("traits", it[1][:60]))
+        elif v.inconclusive:
+            ctx.inconclusive += 1
+        else:
+            ctx.fail("C19: a trait / decltype question reports ZERO as acceptable where a quantity point is required (or refuses the Quantity twin) [%s]: %s" % (core.cfg_name(it[2]), v.cr.first_error()),
+                     {"mode": "syntax", "expect": "ok", "src": v.src, "cfg": list(it[2])})
+    ctx.bump("trait_blocks", len(titems))
